@@ -51,12 +51,21 @@ func runC04(c *Ctx, w *World, r *Report) {
 		if !(b2.HasHi && b2.Hi == -1) {
 			bad = "a path is emitted with p - to in " + b2.String() + "; the range ends exactly before to (exclusive)"
 		}
-		// stored-level test
-		var tzv ssa.Value
+		// stored-level test. "tz" is kept as a linear form: the loop may count tz down (level = height - tz) or the
+		// level up (tz = height - level); the rules below only speak about height - level.
+		var tzL Lin
+		haveTz := false
 		heightIs := func(v ssa.Value) bool {
 			call, ok := stripConv(v).(*ssa.Call)
 			return ok && call.Common().StaticCallee() == fns["bmtree.Height"] && call.Common().Args[0] == ssa.Value(fn.Params[0])
 		}
+		var heightL Lin
+		haveH := false
+		eachInstr(fn, func(ins ssa.Instruction) {
+			if v, ok := ins.(ssa.Value); ok && heightIs(v) && !haveH {
+				heightL, haveH = fa.Lin(v), true
+			}
+		})
 		okLevel := false
 		for _, cd := range fa.Conds(app.Block()) {
 			bo, ok := cd.V.(*ssa.BinOp)
@@ -70,35 +79,57 @@ func runC04(c *Ctx, w *World, r *Report) {
 			if !ok {
 				continue
 			}
+			var L Lin
+			haveL := false
 			for _, side := range [2][2]ssa.Value{{a, b}, {b, a}} {
-				if stripConv(side[0]) != ssa.Value(fn.Params[0]) {
-					continue
-				}
-				ms, ok := fa.MaskOf(side[1])
-				if !ok || ms.Kind != "bit" {
-					bad = "the stored-level test does not select one bit (bitmap.Bit[l] or 1<<l)"
-					continue
-				}
-				L := ms.N
-				// height - tz
-				okI := len(L.T) == 2 && L.K == 0
-				for atom, coef := range L.T {
-					v := fa.AtomValue(atom)
-					if coef == 1 && heightIs(v) {
+				// bitmapSize & Bit[l]
+				if stripConv(side[0]) == ssa.Value(fn.Params[0]) {
+					ms, ok := fa.MaskOf(side[1])
+					if !ok || ms.Kind != "bit" {
+						bad = "the stored-level test does not select one bit (bitmap.Bit[l] or 1<<l)"
 						continue
 					}
-					if coef == -1 {
-						tzv = v
-						continue
-					}
-					okI = false
+					L, haveL = ms.N, true
 				}
-				if !okI {
-					bad = "level bit tested is Bit[" + L.String() + "], expected Bit[height - tz]"
-				} else {
-					okLevel = true
+				// (bitmapSize >> l) & 1
+				if k, ok := constInt64(stripConv(side[1])); ok && k == 1 {
+					if x, amt, ok := asBin(side[0], token.SHR); ok && stripConv(x) == ssa.Value(fn.Params[0]) {
+						L, haveL = fa.Lin(amt), true
+					}
 				}
 			}
+			if !haveL {
+				continue
+			}
+			if !haveH {
+				bad = "Height(bitmapSize) is not computed"
+				continue
+			}
+			// level = height - tz  =>  tz = height - level; tz must involve exactly one variable besides height
+			cand := heightL.Sub(L)
+			nvar := 0
+			okI := cand.K == 0
+			for atom, coef := range cand.T {
+				if heightIs(fa.AtomValue(atom)) {
+					if coef != 1 {
+						okI = false
+					}
+					continue
+				}
+				nvar++
+				if coef != 1 && coef != -1 {
+					okI = false
+				}
+			}
+			if nvar != 1 {
+				okI = false
+			}
+			if !okI {
+				bad = "level bit tested is Bit[" + L.String() + "], expected Bit[height - tz]"
+				continue
+			}
+			tzL, haveTz = cand, true
+			okLevel = true
 		}
 		if !okLevel && bad == "" {
 			bad = "a path is emitted without its level being stored (bitmapSize & Bit[height-tz] != 0)"
@@ -148,17 +179,13 @@ func runC04(c *Ctx, w *World, r *Report) {
 						var gotH, gotT bool
 						for _, m := range []ssa.Value{m1, m2} {
 							ms, ok := fa.MaskOf(m)
-							idx := ssa.Value(nil)
-							if ok && ms.Kind == "low" {
-								idx = fa.AtomValueOfLin(ms.N)
-							}
-							if idx == nil {
+							if !ok || ms.Kind != "low" {
 								badF = "mask halves are not low-bits masks (bitmap.Mask[n] or (1<<n)-1)"
 								continue
 							}
-							if heightIs(idx) {
+							if haveH && ms.N.Eq(heightL) {
 								gotH = true
-							} else if tzv != nil && fa.VN(stripConv(idx)) == fa.VN(stripConv(tzv)) {
+							} else if haveTz && ms.N.Eq(tzL) {
 								gotT = true
 							}
 						}
@@ -216,33 +243,62 @@ func runC04(c *Ctx, w *World, r *Report) {
 				}
 			}
 		}
-		if tzv != nil && badR == "" {
-			tp, ok := stripConv(tzv).(*ssa.Phi)
-			if !ok {
+		if haveTz && badR == "" {
+			var tp *ssa.Phi
+			var tpAtom string
+			var c int64
+			for atom, coef := range tzL.T {
+				if p, ok := fa.AtomValue(atom).(*ssa.Phi); ok && isLoopHeaderPhi(p) {
+					tp, tpAtom, c = p, atom, coef
+				}
+			}
+			if tp == nil {
 				badR = "tz is not a loop variable"
 			} else {
-				tl := fa.Lin(tp)
+				pl := linAtom(tpAtom)
+				rest := tzL.Sub(linConst(0).addScaled(pl, c))
 				var hasTZ, hasH, hasStep bool
-				for _, e := range tp.Edges {
+				var cands []ssa.Value
+				for _, e0 := range tp.Edges {
+					// a clamp written before other statements leaves its own merge in front of the loop: look through it
+					cands = append(cands, resolvePhiExcept(stripConv(e0), tp)...)
+				}
+				for _, e := range cands {
 					el := fa.Lin(e)
-					if d := el.Sub(tl); d.IsConst() && d.K == -1 {
-						hasStep = true
+					if d := el.Sub(pl); d.IsConst() && d.K != 0 {
+						if d.K*c == -1 {
+							hasStep = true
+						} else {
+							badR = fmt.Sprintf("the level walk moves tz by %+d per step, expected -1", d.K*c)
+						}
 						continue
 					}
-					if heightIs(e) {
-						hasH = true
+					// the value of tz this start value stands for
+					I := rest.Add(linConst(0).addScaled(el, c))
+					var leaves []ssa.Value
+					if v := fa.AtomValueOfLin(I); v != nil {
+						leaves = resolvePhi(stripConv(v))
+					}
+					if len(leaves) == 0 {
+						badR = "tz starts at " + I.String() + ", expected min(TrailingZeros64(i), height)"
 						continue
 					}
-					if call, ok := asCall(e, "math/bits.TrailingZeros64"); ok && iv != nil && fa.VN(call.Common().Args[0]) == fa.VN(iv) {
-						hasTZ = true
-						continue
+					for _, lf := range leaves {
+						if heightIs(lf) {
+							hasH = true
+							continue
+						}
+						if call, ok := asCall(lf, "math/bits.TrailingZeros64"); ok && iv != nil && fa.VN(call.Common().Args[0]) == fa.VN(iv) {
+							hasTZ = true
+							continue
+						}
+						badR = "tz candidate " + fa.Lin(lf).String() + " is neither TrailingZeros64(i), height nor tz-1"
 					}
-					badR = "tz candidate " + el.String() + " is neither TrailingZeros64(i), height nor tz-1"
 				}
 				if !(hasTZ && hasH && hasStep) && badR == "" {
 					badR = "tz must start at min(TrailingZeros64(i), height) and step by -1"
 				}
-				bd := fa.BoundsAt(app.Block(), tl)
+				bd := fa.BoundsAt(app.Block(), tzL)
 				if !(bd.HasLo && bd.Lo == 0) {
 					badR = "the level walk covers tz in " + bd.String() + "; it must include tz = 0 (the full-length path) and nothing below"
 				}
@@ -325,10 +381,17 @@ func runC04(c *Ctx, w *World, r *Report) {
 				if !rd.PosLin.Eq(fa.Lin(pi)) {
 					bad = "bit tested is " + rd.PosLin.String() + ", not PathToIndex(bitmapSize, p)"
 				}
-				ia := rd.Ins.(*ssa.IndexAddr)
-				bd := fa.BoundsAt(ia.Block(), fa.Lin(ia.Index).Sub(linAtom("call:builtin len(p1)")))
-				if !(bd.HasHi && bd.Hi == -1) {
-					bad = "bm[k] is read with k - len(bm) in " + bd.String() + "; words beyond len(bm) must read as 0, never panic (guard k < len(bm) exactly)"
+				if ia, isIA := rd.Ins.(*ssa.IndexAddr); isIA {
+					bd := fa.BoundsAt(ia.Block(), fa.Lin(ia.Index).Sub(linAtom("call:builtin len(p1)")))
+					if !(bd.HasHi && bd.Hi == -1) {
+						bad = "bm[k] is read with k - len(bm) in " + bd.String() + "; words beyond len(bm) must read as 0, never panic (guard k < len(bm) exactly)"
+					}
+				} else {
+					// read through Get/Get1: the position must be established to lie inside bm
+					bd := fa.BoundsAt(rd.Ins.Block(), rd.PosLin.Sub(linConst(0).addScaled(linAtom("call:builtin len(p1)"), 64)))
+					if !(bd.HasHi && bd.Hi <= -1) {
+						bad = "the bit is read through " + fmtVal(w, rd.Use) + " with position - 64*len(bm) in " + bd.String() + "; words beyond len(bm) must read as 0, never panic"
+					}
 				}
 				napp := 0
 				eachInstr(fn, func(ins ssa.Instruction) {
